@@ -96,6 +96,11 @@ def replay_errors(model, cls="SinglePhaseReservoir", which="length", length=None
 def replay_interp(model, cls="SinglePhaseReservoir", nx=4, nt=3, rerun=None):
     import numpy as np
     t = np.cumsum([float(model.get("t0") or 0.0)] + [float(model.get(f"dt{k}") or 0.01 * k) for k in range(1, nt)])
+    if not rerun and model.get("t0") is None:
+        # no witness: a grid shifted to negative times as well (all shifts are in the property's quantifier)
+        bad, det = replay_interp({"t0": -2.5, **{f"dt{k}": 0.4 * k for k in range(1, nt)}}, cls=cls, nx=nx, nt=nt)
+        if bad:
+            return bad, det
     r = _real(cls, nx)
     if rerun:
         # an earlier run on the same object (shifted and stretched grid), with the calls named in `rerun` made after it
@@ -254,6 +259,14 @@ def job_interp(job, cls, nx, nt, rerun=None):
         job.prove(f"{tag}/interpolator is the final recovery after the last time[path{k}]",
                   pr.pc + [T.b_lt(P(t[-1]), P(q)), T.b_not(T.b_eq0(T.p_sub(P(fq), P(rf[-1]))))], bound=f"nt={nt}", replay=rp)
         job.prove(f"{tag}/recovery starts at 0[path{k}]", pr.pc + [T.b_not(T.b_eq0(P(rf[0])))], bound=f"nt={nt}", replay=rp)
+        # nothing on the way is undefined for some admissible grid (a root or logarithm of a time, a division by a time ...):
+        # the grid's origin is arbitrary, negative times included
+        seen = set()
+        for cond, why in pr.ctx.defined:
+            if cond.id in seen or why.startswith("integer overflow"):
+                continue
+            seen.add(cond.id)
+            job.prove(f"{tag}/defined for every time origin[path{k}][{len(seen)}]", pr.pc + [T.b_not(cond)], bound=f"nt={nt}, any t0", replay=rp, note=why[:100], elim=True)
         job.prove(f"{tag}/reach[path{k}]", pr.pc, expect="sat", elim=True)
 
 
